@@ -29,6 +29,7 @@ type loopInfo struct {
 	preSt    *State
 	ghostCur map[string]Binding
 	writes   []writeRec
+	keeps    []keepRec
 }
 
 type writeRec struct {
@@ -490,6 +491,25 @@ func (fr *Frame) execBlock(b *ssa.BasicBlock, st0 *State, reach0 string) {
 			fr.backEdge(fr.loops[s], b, and(cur.reach, fr.edgeCond[b][i]), cur.st)
 		}
 	}
+	// exit edges of loops: anchors "after loop N" (clauses about what a loop has established when it is left,
+	// by its condition or by a break)
+	if fr.contract != nil && len(fr.contract.Asserts) > 0 {
+		for i, s := range b.Succs {
+			if isBackEdge(b, s) {
+				continue
+			}
+			for _, l := range fr.loopList {
+				if l.body[b] && !l.body[s] {
+					ec := and(cur.reach, fr.edgeCond[b][i])
+					if ec == "false" {
+						continue
+					}
+					fr.curBlock = b
+					fr.anchor(fmt.Sprintf("after loop %d", l.ord), &blockCtx{st: cur.st.clone(), reach: ec}, nil)
+				}
+			}
+		}
+	}
 }
 
 func (fr *Frame) edgeCondTo(p, b *ssa.BasicBlock) string {
@@ -735,7 +755,12 @@ func (fr *Frame) enterLoop(li *loopInfo, b *ssa.BasicBlock, st *State, reach str
 	nb := g.sc.Fresh("base", SInt)
 	g.sc.Assume(fmt.Sprintf("(>= %s (+ %s %d))", nb.S, g.curBase, g.allocN+1))
 	g.curBase = nb.S
-	g.havocWrites(hst, st, writes, nb.S, preTop)
+	var keepP *[]keepRec
+	if li.spec.KeepsOld {
+		li.keeps = nil
+		keepP = &li.keeps
+	}
+	g.havocWrites(hst, st, writes, nb.S, preTop, keepP)
 	havocPhi := map[*ssa.Phi]Term{}
 	for _, phi := range phisOf(b) {
 		nm := phi.Comment
@@ -810,6 +835,18 @@ func (fr *Frame) backEdge(li *loopInfo, u *ssa.BasicBlock, reach string, st *Sta
 		}
 		f := env.trBool(inv.E)
 		g.oblige("inv-preserve", fr.oname("inv-preserve", fmt.Sprintf("loop%d/%s@b%d", li.ord, label, u.Index)), reach, f, inv.Src, false)
+	}
+	// keeps-old: the body changed memory that existed at function entry only at the iteration-independent addresses
+	for _, k := range li.keeps {
+		cur := g.heap(st, k.key, k.elemSort)
+		al := append([]string(nil), k.allowed...)
+		for _, a := range g.viewArrs {
+			if a.key == k.key {
+				al = append(al, a.pred) // element views materialised in the body are not writes
+			}
+		}
+		f := fmt.Sprintf("(forall ((r Ref)) (! (or %s (= (select %s r) (select %s r))) :pattern ((select %s r))))", strings.Join(al, " "), cur.S, k.pre, cur.S)
+		g.oblige("inv-preserve", fr.oname("inv-preserve", fmt.Sprintf("loop%d/keeps-old/%s@b%d", li.ord, strings.TrimPrefix(strings.TrimPrefix(k.key, "H_"), "G_"), u.Index)), reach, f, "keeps-old", false)
 	}
 }
 
@@ -968,6 +1005,15 @@ func (l *writeLog) add(g *Gen, key, elemSort, addr, pattern string) {
 			pattern = "elems:" + arr
 		} else if sh, ok := addrShape(addr); ok {
 			pattern = "shape:" + sh
+		} else if strings.HasPrefix(addr, "(Fld ") {
+			// field i of some object that changes with the iteration: only cells (Fld _ i) can be written
+			inner := firstArg(addr[len("(Fld "):])
+			rest := strings.TrimSpace(addr[len("(Fld ")+len(inner) : len(addr)-1])
+			if rest != "" && !strings.ContainsAny(rest, " ()") {
+				pattern = "fld:" + rest
+			} else {
+				pattern = ""
+			}
 		} else {
 			pattern = ""
 		}
@@ -1012,7 +1058,15 @@ func firstArg(s string) string {
 }
 
 // havocWrites replaces the written locations in hst by unknown values (relative to pre-state st).
-func (g *Gen) havocWrites(hst, st *State, writes []writeRec, base string, preTop string) {
+// keepRec: for a loop declared "keeps-old", the heap components whose havoc is refined by "memory that existed at
+// function entry changes only at iteration-independent addresses"; the same formula is an obligation at back edges.
+type keepRec struct {
+	key, elemSort string
+	allowed       []string // disjuncts over r
+	pre           string   // heap term at loop entry
+}
+
+func (g *Gen) havocWrites(hst, st *State, writes []writeRec, base string, preTop string, keep *[]keepRec) {
 	byKey := map[string][]writeRec{}
 	for _, w := range writes {
 		byKey[w.key] = append(byKey[w.key], w)
@@ -1024,7 +1078,7 @@ func (g *Gen) havocWrites(hst, st *State, writes []writeRec, base string, preTop
 		whole := false
 		var shapes []string
 		fresh := false
-		var addrs, pats []string
+		var addrs, pats, flds []string
 		for _, w := range ws {
 			switch {
 			case w.addr != "":
@@ -1033,6 +1087,8 @@ func (g *Gen) havocWrites(hst, st *State, writes []writeRec, base string, preTop
 				fresh = true
 			case strings.HasPrefix(w.pattern, "shape:"):
 				shapes = append(shapes, strings.TrimPrefix(w.pattern, "shape:"))
+			case strings.HasPrefix(w.pattern, "fld:"):
+				flds = append(flds, strings.TrimPrefix(w.pattern, "fld:"))
 			case w.pattern != "":
 				pats = append(pats, strings.TrimPrefix(w.pattern, "elems:"))
 			default:
@@ -1052,11 +1108,27 @@ func (g *Gen) havocWrites(hst, st *State, writes []writeRec, base string, preTop
 			for _, sh := range shapes {
 				ds = append(ds, shapePred("r", sh))
 			}
+			for _, f := range flds {
+				ds = append(ds, "(and ((_ is Fld) r) (= (fid r) "+f+"))")
+			}
 			if fresh {
 				ds = append(ds, "(> (rootOid r) "+preTop+")")
 			}
 			g.sc.Assume(fmt.Sprintf("(forall ((r Ref)) (! (or %s (= (select %s r) (select %s r))) :pattern ((select %s r))))",
 				strings.Join(ds, " "), nh.S, old.S, nh.S))
+			if keep != nil && (len(shapes) > 0 || fresh) {
+				var ks []string
+				for _, a := range addrs {
+					ks = append(ks, "(= r "+a+")")
+				}
+				for _, p := range pats {
+					ks = append(ks, "(= (elemArr r) "+p+")")
+				}
+				ks = append(ks, "(> (rootOid r) allocBase)")
+				g.sc.Assume(fmt.Sprintf("(forall ((r Ref)) (! (or %s (= (select %s r) (select %s r))) :pattern ((select %s r))))",
+					strings.Join(ks, " "), nh.S, old.S, nh.S))
+				*keep = append(*keep, keepRec{key, es, ks, old.S})
+			}
 		}
 		hst.heaps[key] = nh
 		if key == "H_Int_uint8" && !whole {
@@ -1196,6 +1268,7 @@ func (g *Gen) VerifyFunction(fn *ssa.Function) (err error) {
 	}
 	// vacuity guard: the precondition must be satisfiable
 	g.obls = append(g.obls, &Obligation{Name: funcKey(fn) + "/cover/requires", Kind: "cover", Func: g.fnName, Prefix: g.sc.Len(), Reach: "true", Goal: "true", Cover: true})
+	entryBase := g.curBase
 	fr.execBody(st, "true")
 	// an anchored clause whose anchor is never reached would silently stop binding
 	for i, a := range fc.Asserts {
@@ -1232,6 +1305,66 @@ func (g *Gen) VerifyFunction(fn *ssa.Function) (err error) {
 				// obligations are emitted with the full script as context
 				g.obls = append(g.obls, &Obligation{Name: fmt.Sprintf("%s/post/%s@ret%d", funcKey(fn), l, ri), Kind: "post", Func: g.fnName,
 					Prefix: g.sc.Len(), Reach: r.reach, Goal: f, Src: en.Src, Pos: r.pos})
+			}
+		}
+	}
+	// frame: whatever the function changes in memory that existed at its entry must be covered by its modifies
+	// clauses (callers only havoc those). The clauses are replayed on a scratch copy of the entry state to collect
+	// the permitted addresses per heap component.
+	if os.Getenv("GOWP_NOFRAME") == "" && len(fr.rets) > 0 && g.W.calledProvedSet()[funcKey(fn)] {
+		var rec []frameW
+		g.frec = &rec
+		scratch := fr.entrySt.clone()
+		fenv := fr.baseEnv(scratch)
+		fenv.old = fr.entrySt
+		saveLog := g.wlog
+		g.wlog = nil
+		for _, loc := range fc.Modifies {
+			fr.havocLoc(fenv, loc, scratch)
+		}
+		g.wlog = saveLog
+		g.frec = nil
+		allowed := map[string][]string{}
+		for _, w := range rec {
+			allowed[w.key] = append(allowed[w.key], w.pred)
+		}
+		for ri, r := range fr.rets {
+			var keys []string
+			for k := range r.st.heaps {
+				keys = append(keys, k)
+			}
+			sort.Strings(keys)
+			for _, k := range keys {
+				hx := r.st.heaps[k]
+				he, ok := fr.entrySt.heaps[k]
+				if !ok {
+					he = g.entryHeap(k, arrayElemSort(hx.Sort))
+				}
+				if hx.S == he.S || strings.HasPrefix(k, "D_") {
+					continue // unchanged, or the engine's own bookkeeping of deferred calls
+				}
+				whole := false
+				for _, p := range allowed[k] {
+					if p == "true" {
+						whole = true
+					}
+				}
+				if whole {
+					continue
+				}
+				cond := "(<= (rootOid r) " + entryBase + ")"
+				al := append([]string(nil), allowed[k]...)
+				for _, a := range g.viewArrs {
+					if a.key == k {
+						al = append(al, a.pred)
+					}
+				}
+				if len(al) > 0 {
+					cond = "(and " + cond + " (not " + or(al...) + "))"
+				}
+				goal := fmt.Sprintf("(forall ((r Ref)) (! (=> %s (= (select %s r) (select %s r))) :pattern ((select %s r))))", cond, hx.S, he.S, hx.S)
+				g.obls = append(g.obls, &Obligation{Name: fmt.Sprintf("%s/frame/%s@ret%d", funcKey(fn), strings.TrimPrefix(strings.TrimPrefix(k, "H_"), "G_"), ri), Kind: "frame", Func: g.fnName,
+					Prefix: g.sc.Len(), Reach: r.reach, Goal: goal, Src: "modifies clauses cover every change to " + k, Pos: r.pos})
 			}
 		}
 	}
@@ -1393,6 +1526,25 @@ func (g *Gen) singleTxRule(fn *ssa.Function) {
 	}
 	for _, an := range fn.AnonFuncs {
 		nested(an)
+	}
+	// the function's own body must not reach a second transaction through a callee of its package either
+	nNested := len(problems)
+	for _, b := range fn.Blocks {
+		for _, ins := range b.Instrs {
+			c, ok := ins.(ssa.CallInstruction)
+			if !ok {
+				continue
+			}
+			if callee, ok := c.Common().Value.(*ssa.Function); ok && callee.Pkg != nil && callee.Pkg == fn.Pkg {
+				nested(callee)
+				for _, an := range callee.AnonFuncs {
+					nested(an)
+				}
+			}
+		}
+	}
+	for i := nNested; i < len(problems); i++ {
+		problems[i] = "outside the transaction: " + problems[i]
 	}
 	goal := "true"
 	src := "single_transaction"
